@@ -22,19 +22,19 @@ OPT = ["gmlc::libguarded::guarded_opt", "gmlc::libguarded::shared_guarded_opt"]
 
 
 def run(ctx):
-    common.helper_summaries(ctx, "C08.typestate",
-                            ["try_lock_handle", "try_lock_handle_for", "try_lock_handle_until",
-                             "try_lock_shared_handle", "try_lock_shared_handle_for",
-                             "try_lock_shared_handle_until"], None)
-    common.acquisition_summaries(ctx, "C08.summary", ALL, OPT)
-    common.try_paths_nonblocking(ctx, "C08.nonblocking", ALL)
-    common.unlock_rule(ctx, "C08.unlock", "gmlc::libguarded::lock_handle")
-    common.unlock_rule(ctx, "C08.unlock", "gmlc::libguarded::shared_lock_handle")
-    common.handle_rules(ctx, "C08.handle", "gmlc::libguarded::lock_handle", "unique")
-    common.handle_rules(ctx, "C08.handle", "gmlc::libguarded::shared_lock_handle", "shared")
+    ctx.step(common.helper_summaries, ctx, "C08.typestate",
+             ["try_lock_handle", "try_lock_handle_for", "try_lock_handle_until",
+              "try_lock_shared_handle", "try_lock_shared_handle_for",
+              "try_lock_shared_handle_until"], None)
+    ctx.step(common.acquisition_summaries, ctx, "C08.summary", ALL, OPT)
+    ctx.step(common.try_paths_nonblocking, ctx, "C08.nonblocking", ALL)
+    ctx.step(common.unlock_rule, ctx, "C08.unlock", "gmlc::libguarded::lock_handle")
+    ctx.step(common.unlock_rule, ctx, "C08.unlock", "gmlc::libguarded::shared_lock_handle")
+    ctx.step(common.handle_rules, ctx, "C08.handle", "gmlc::libguarded::lock_handle", "unique")
+    ctx.step(common.handle_rules, ctx, "C08.handle", "gmlc::libguarded::shared_lock_handle", "shared")
     ctx.rule("C08.disabled", "in guarded_opt / shared_guarded_opt the enabled==false arm builds the handle from "
              "&m_obj and a default-constructed lock and never references the mutex; the enabled arm is the locked form",
              floor=20)
     for cls in OPT:
-        check_guarded_fields(ctx, "C08.disabled", cls)
-    common.witnesses(ctx, "C08.witness", ["C08"])
+        ctx.step(check_guarded_fields, ctx, "C08.disabled", cls)
+    ctx.step(common.witnesses, ctx, "C08.witness", ["C08"])
